@@ -82,7 +82,7 @@ def run(ctx):
             P3 = dict(P)
             P3["design"] = []
             P3["gen"] = {"module": "Gen_WS", "cfg": cfg, "simulate": {"num": 25, "depth": 600},
-                         "thorough_simulate": {"num": 1500, "depth": 600}, "timeout": 600, "thorough_timeout": 1700}
+                         "thorough_simulate": {"num": 400, "depth": 600}, "timeout": 600, "thorough_timeout": 1700}
             P3["n_random"] = (0, 0)
             _std(ctx, P3)
 
